@@ -51,7 +51,9 @@ ItemPool == <<IC("match_string", FALSE, t_foo), IC("match_string", TRUE, t_foo),
               [IC("state", FALSE, <<>>) EXCEPT !.k = t_k, !.v = t_v], [IC("state", FALSE, <<>>) EXCEPT !.k = t_k, !.v = t_w],
               [IC("state", FALSE, <<>>) EXCEPT !.k = <<122>>, !.v = <<>>],
               [IC("state", FALSE, <<>>) EXCEPT !.k = <<110>>, !.op = "gt", !.num = TRUE, !.n = 4],
-              [IC("state", FALSE, <<>>) EXCEPT !.k = t_k, !.op = "gt", !.num = TRUE, !.n = 4]>>
+              [IC("state", FALSE, <<>>) EXCEPT !.k = t_k, !.op = "gt", !.num = TRUE, !.n = 4],
+              \* (appended: other definitions pick conditions of this pool by position) the value of the case-sensitive item
+              IC("match_value", FALSE, <<65,100,109>>), IC("match_value", TRUE, <<65,100,109>>), IC("match_string", FALSE, <<65,100>>)>>
 FC(t, names, s) == [t |-> t, names |-> names, s |-> s, k |-> <<>>, v |-> <<>>, op |-> "eq", num |-> FALSE, n |-> 0, pats |-> <<>>]
 RP(ci, text, end) == [ci |-> ci, text |-> text, end |-> end]
 FCR(t, pats) == [FC(t, <<>>, <<>>) EXCEPT !.pats = pats]
